@@ -7,7 +7,8 @@ ROOT="$(cd "$(dirname "$0")/.." && pwd)"
 if ! git -C /repo diff --quiet; then echo "refusing: /repo has uncommitted changes" >&2; exit 2; fi
 if ! git -C /repo apply --check "$P" 2>/dev/null; then echo "$(basename $P) does-not-apply"; exit 2; fi
 git -C /repo apply "$P"
-trap 'git -C /repo checkout -- . ; git -C /repo clean -fdq src tests' EXIT
+EV=$(mktemp -d); export ACBVERIF_EVIDENCE_DIR="$EV"
+trap 'git -C /repo checkout -- . ; git -C /repo clean -fdq src tests; rm -rf "$EV"' EXIT
 for ID in "$@"; do
   out=$(VERIF_MUTANT=1 bash "$ROOT/bin/check.sh" "$ID" quick 2>&1); rc=$?
   first=$(echo "$out" | grep -m1 '^FAIL' | cut -c1-220)
